@@ -276,6 +276,8 @@ def main(argv=None) -> int:
     s.add_argument("props", nargs="*")
     vv = sub.add_parser("variant")
     vv.add_argument("vids", nargs="+")
+    tw = sub.add_parser("twins", help="run every property's check on the independent refactorings whose name contains PATTERN")
+    tw.add_argument("pattern", nargs="?", default="")
     a = ap.parse_args(argv)
     try:
         if a.self_check:
@@ -286,6 +288,21 @@ def main(argv=None) -> int:
             return cmd_replay(a.path)
         if a.cmd == "selftest":
             return cmd_selftest(a.props)
+        if a.cmd == "twins":
+            import multiprocessing as mp
+
+            jobs = []
+            for prop in PROPS:
+                for v in variants.for_property(prop):
+                    if v.diff and a.pattern in v.diff:
+                        jobs.append((prop, v.vid, "thorough"))
+            with mp.get_context("fork").Pool(16) as pool:
+                res = pool.map(_variant_job, jobs)
+            bad = [r for r in res if not r["ok"]]
+            for r in bad:
+                print(f"BAD {r['id']} got={r.get('violations')} und={(r.get('undecided') or [])[:3]} {r.get('error', '')}"[:700])
+            print(f"[pstat] twins: {len(res)} runs, {len(bad)} not silent")
+            return 0 if not bad else 2
         if a.cmd == "variant":
             rc = 0
             for vid in a.vids:
